@@ -879,8 +879,10 @@ func (h *HttpServer) ServeHTTP(w http.ResponseWriter, r *http.Request) {
 	// second copy of the gate.
 	if producible := h.producibleResponseEncodings(); len(producible) > 0 {
 		enc, useCustomHeader := chooseResponseEncoding(
-			r.Header.Get(customAcceptEncodingHeader),
-			r.Header.Get(acceptEncodingHeader),
+			// A list header may arrive as several field lines (RFC 9110
+			// section 5.3): the client's list is all of them, in order.
+			strings.Join(r.Header.Values(customAcceptEncodingHeader), ","),
+			strings.Join(r.Header.Values(acceptEncodingHeader), ","),
 			producible,
 		)
 		if enc != "" {
